@@ -35,6 +35,11 @@
 \* where an integer operator meets a float field or a float operator meets an integer field (the
 \* JSON accessor converts, the struct accessor refuses): `Matches` is the strict (struct) meaning;
 \* `MayMatch` / `MustMatch` / `Allowed` leave exactly those leaves open.
+\*
+\* USE: `Matches(c, r)` for the strict meaning; `Conforms(b, c, r)` to test an observed answer b
+\* of an implementation (cheaper than b \in Allowed(c, r)); `WellFormed(c)` for what Query.Check
+\* accepts.  TLC note: TLC does not cache zero-arity definitions whose value contains records (a
+\* pool of witness records, say): bind them once with LET in the caller and pass them down.
 EXTENDS Integers, Sequences
 
 IntOps   == {"eq", "gt", "ge", "lt", "le"}                         \* ==  >  >=  <  <=
